@@ -106,6 +106,22 @@ func (r *ownReader) ReadRecord() (*protocol.Record, error) {
 }
 
 func isTimeout(err error) bool {
+	if err == nil {
+		return false
+	}
+	var we kafka.WriteErrors
+	if errors.As(err, &we) { // per-message errors of Writer.WriteMessages
+		n := 0
+		for _, e := range we {
+			if e != nil && !isTimeout(e) {
+				return false
+			}
+			if e != nil {
+				n++
+			}
+		}
+		return n > 0
+	}
 	var te interface{ Timeout() bool }
 	return errors.Is(err, context.DeadlineExceeded) || errors.Is(err, os.ErrDeadlineExceeded) || (errors.As(err, &te) && te.Timeout())
 }
@@ -485,9 +501,9 @@ func genBytesSpec(t *rapid.T, label string, big bool) bytesSpec {
 }
 
 const (
-	minTimeNs = int64(time.Millisecond)     // 1 ms after the epoch: 0 ms means "no timestamp" to the library
-	maxTimeNs = int64(7258118400) * 1e9     // 2200-01-01
-	year2001  = int64(978307200) * 1e9      // a base for "ordinary" times
+	minTimeNs = int64(time.Millisecond) // 1 ms after the epoch: 0 ms means "no timestamp" to the library
+	maxTimeNs = int64(7258118400) * 1e9 // 2200-01-01
+	year2001  = int64(978307200) * 1e9  // a base for "ordinary" times
 	year2033  = int64(1988150400) * 1e9
 )
 
